@@ -33,7 +33,7 @@ ASSUMPTIONS = ['how many copies of a broadcast a connection with several matchin
                'the answer to a message for an unowned destination is not asserted, only that no client receives it']
 
 BUS = 'org.freedesktop.DBus'
-WK = ['org.verif.S0', 'org.verif.S1']
+WK = ['org.verif.svc-0', 'org.verif.S1']      # bus names may contain a hyphen
 
 
 def _msg_fields(m, dest):
